@@ -180,6 +180,13 @@ CASES = [
          formula="(a0 + a1*T + a2*T**2 + a3*T**3, a0 + a1/T + a2/T**2, a0 + a1*(T - Tref) + a2*(T - Tref)**2, a0 + a1*lT + a2*lT**2, "
                  "a0 + a1/(T - Tref) + a2/(T - Tref)**2, (a0 + a1*T)*a2, a0, a0 + a2*T**2, a0 + a2/T**2, a0 + a2*(T - Tref)**2, a1*T + a3*T**3, "
                  "a0 + a3*T, a2 + a1*T, a2 + a3*T)"),
+    # LONG coefficient lists (10 and 18 terms; a reciprocal one with 12): every term is present, in order
+    dict(name="polynomials_long", targets=["chempy.util._expr.create_Poly"], setup=RS,
+         vars={"q0": ANY, "q1": ANY, "q2": ANY, "q3": ANY, "q4": ANY, "q5": ANY, "q6": ANY, "q7": ANY, "q8": ANY, "q9": ANY, "q10": ANY, "q11": ANY, "q12": ANY, "q13": ANY, "q14": ANY, "q15": ANY, "q16": ANY, "q17": ANY, "T": TR, "Tref": TR},
+         plain="(TPoly([q0, q1, q2, q3, q4, q5, q6, q7, q8, q9])({'temperature': T}), TPoly([q0, q1, q2, q3, q4, q5, q6, q7, q8, q9, q10, q11, q12, q13, q14, q15, q16, q17])({'temperature': T}), RTPoly([q0, q1, q2, q3, q4, q5, q6, q7, q8, q9, q10, q11])({'temperature': T}), "
+               "ShiftedTPoly([Tref, q0, q1, q2, q3, q4, q5, q6, q7, q8])({'temperature': T}))",
+         assume=["T - Tref >= 1"],
+         formula="(q0*T**0 + q1*T**1 + q2*T**2 + q3*T**3 + q4*T**4 + q5*T**5 + q6*T**6 + q7*T**7 + q8*T**8 + q9*T**9, q0*T**0 + q1*T**1 + q2*T**2 + q3*T**3 + q4*T**4 + q5*T**5 + q6*T**6 + q7*T**7 + q8*T**8 + q9*T**9 + q10*T**10 + q11*T**11 + q12*T**12 + q13*T**13 + q14*T**14 + q15*T**15 + q16*T**16 + q17*T**17, q0/T**0 + q1/T**1 + q2/T**2 + q3/T**3 + q4/T**4 + q5/T**5 + q6/T**6 + q7/T**7 + q8/T**8 + q9/T**9 + q10/T**10 + q11/T**11, q0*(T - Tref)**0 + q1*(T - Tref)**1 + q2*(T - Tref)**2 + q3*(T - Tref)**3 + q4*(T - Tref)**4 + q5*(T - Tref)**5 + q6*(T - Tref)**6 + q7*(T - Tref)**7 + q8*(T - Tref)**8)"),
 ]
 
 
@@ -403,7 +410,7 @@ sys.exit(1 if abs(_get_R()/8.3144598 - 1) > 2e-6 or abs(_get_kB_over_h()/(1.3806
 
 # cases whose real code multiplies by a FLOAT module constant (R, kB/h) are left out: sympy folds 1/8.314472 into a rounded Float, so
 # the symbolic result differs from the exact-rational formula by float rounding (outside the claim) and no exact identity holds
-SYMPY_CASES = ["rates_Arrhenius", "rates_Eyring", "equilibrium_expressions", "polynomials", "expr_valued_parameters"]
+SYMPY_CASES = ["rates_Arrhenius", "rates_Eyring", "equilibrium_expressions", "polynomials", "polynomials_long", "expr_valued_parameters"]
 
 REPLAY_SYMPY = '''
 sys.path.insert(0, "/verif")
@@ -566,7 +573,7 @@ def tasks(tier, seed):
     ts = [dict(id="C16.%s" % c["name"], fn="task_case", kwargs=dict(casename=c["name"]), timeout=600) for c in CASES]
     ts += [dict(id="C16.sympy.%s" % n, fn="task_sympy", kwargs=dict(casename=n), timeout=600) for n in SYMPY_CASES]
     ts += [dict(id="C16.sympy_eval.%s" % n, fn="task_sympy_eval", kwargs=dict(casename=n), timeout=600) for n in SYMPY_EVAL_ONLY]
-    ts += [dict(id="C16.piecewise.%d" % n, fn="task_piecewise", kwargs=dict(npieces=n), timeout=300) for n in (2, 3)]
+    ts += [dict(id="C16.piecewise.%d" % n, fn="task_piecewise", kwargs=dict(npieces=n), timeout=300) for n in ((2, 3, 5) if tier == "quick" else (2, 3, 5, 6, 9))]
     ts.append(dict(id="C16.constants", fn="task_constants", kwargs={}, timeout=60))
     tl = [t for t in trees(1) if t[0] != "leaf"] + [t for t in trees(2) if t[0] != "leaf" and t not in trees(1)]
     if tier == "quick":
